@@ -18,6 +18,13 @@ def _interp(x, xp, fp):
     return tb.astensor(np.interp(x, xp.tolist(), fp.tolist()))
 
 
+def _to_float(value):
+    # scalar tensors of any backend -> float (the root finder and the
+    # interpolation below are NumPy/SciPy code)
+    tb, _ = get_backend()
+    return float(tb.tolist(tb.astensor(value)))
+
+
 def toms748_scan(
     data,
     model,
@@ -93,9 +100,9 @@ def toms748_scan(
         # limit == 0: Observed
         # else: expected
         return (
-            f_cached(poi)[0] - level
+            _to_float(f_cached(poi)[0]) - level
             if limit == 0
-            else f_cached(poi)[1][limit - 1] - level
+            else _to_float(f_cached(poi)[1][limit - 1]) - level
         )
 
     def best_bracket(limit):
@@ -103,7 +110,11 @@ def toms748_scan(
         ks = np.asarray(list(cache))
         vals = np.asarray(
             [
-                value[0] - level if limit == 0 else value[1][limit - 1] - level
+                (
+                    _to_float(value[0]) - level
+                    if limit == 0
+                    else _to_float(value[1][limit - 1]) - level
+                )
                 for value in cache.values()
             ]
         )
@@ -118,11 +129,14 @@ def toms748_scan(
     # {lower,upper}_results[0] is an array and {lower,upper}_results[1] is a
     # list of arrays so need to turn {lower,upper}_results[0] into list to
     # concatenate them
-    while np.any(np.asarray([lower_results[0]] + lower_results[1]) < level):
+    def _as_array(results):
+        return np.asarray([_to_float(r) for r in [results[0]] + results[1]])
+
+    while np.any(_as_array(lower_results) < level):
         bounds_low /= 2
         lower_results = f_cached(bounds_low)
     upper_results = f_cached(bounds_up)
-    while np.any(np.asarray([upper_results[0]] + upper_results[1]) > level):
+    while np.any(_as_array(upper_results) > level):
         bounds_up *= 2
         upper_results = f_cached(bounds_up)
 
@@ -191,13 +205,19 @@ def linear_grid_scan(
         hypotest(mu, data, model, return_expected_set=True, **hypotest_kwargs)
         for mu in scan
     ]
-    obs = tb.astensor([[r[0]] for r in results])
-    exp = tb.astensor([[r[1][idx] for idx in range(5)] for r in results])
-
-    result_array = tb.concatenate([obs, exp], axis=1).T
+    # the interpolation is NumPy code: collect the CLs values as floats
+    result_array = np.asarray(
+        [
+            [_to_float(r[0])] + [_to_float(r[1][idx]) for idx in range(5)]
+            for r in results
+        ]
+    ).T
+    scan_points = np.asarray([_to_float(mu) for mu in scan])
 
     # observed limit and the (0, +-1, +-2)sigma expected limits
-    limits = [_interp(level, result_array[idx][::-1], scan[::-1]) for idx in range(6)]
+    limits = [
+        _interp(level, result_array[idx][::-1], scan_points[::-1]) for idx in range(6)
+    ]
     obs_limit, exp_limits = limits[0], limits[1:]
 
     if return_results:
